@@ -269,6 +269,46 @@ def check_case(case):
         for x in compare(s, img, "%s over %d map(s)" % (name, len(hist)), scale):
             x["form"] = name
             dis.append(x)
+    if obj[0] == "L":
+        # degenerate arcs drawn as the straight line (a zero radius, SVG 1.1 F.6.2) or as a point (start = end): their image is
+        # the image of that line / point
+        P = svg.Point
+        a, b = fpt(obj[1]), fpt(obj[2])
+        ia, ib = fpt(img[1]), fpt(img[2])
+        tol = 1e-9 * scale
+
+        def deg_imul(end):
+            x = svg.Arc(P(*a), 0, 7 * float(unit), 0, False, True, P(*end)) if end != a else svg.Arc(P(*a), 3 * float(unit), 7 * float(unit), 0, False, True, P(*a))
+            for m in ms:
+                x *= m
+            return x
+
+        def deg_path(end):
+            p = svg.Path(svg.Move(None, P(*a)))
+            p.arc(0 if end != a else 3 * float(unit), 7 * float(unit), 0, False, True, P(*end))
+            p.line(P(1000, 1000))
+            for m in ms:
+                p *= m
+                if k % 2:
+                    p.reify()
+            p.reify()
+            return p[1]
+        for name, fn, end, iend in (("zero-radius arc *= M", deg_imul, b, ib), ("path with a zero-radius arc *= M; reify", deg_path, b, ib),
+                                    ("zero-length arc *= M", deg_imul, a, ia), ("path with a zero-length arc *= M; reify", deg_path, a, ia)):
+            try:
+                x = fn(end)
+                got = [(t, x.point(t)) for t in (0.0, 0.25, 0.5, 1.0)]
+                for t, q in got:
+                    w = (ia[0] + (iend[0] - ia[0]) * t, ia[1] + (iend[1] - ia[1]) * t)
+                    if q is None or abs(q.x - w[0]) > tol or abs(q.y - w[1]) > tol:
+                        dis.append({"clause": "DegenerateArc", "form": name, "detail": "%s: point(%s) = %r, the image of the line's point is %r" % (name, t, q, w)})
+                        break
+                if abs(x.start.x - ia[0]) > tol or abs(x.start.y - ia[1]) > tol or abs(x.end.x - iend[0]) > tol or abs(x.end.y - iend[1]) > tol:
+                    dis.append({"clause": "DegenerateArc", "form": name, "detail": "%s: start/end %r %r, expected %r %r" % (name, x.start, x.end, ia, iend)})
+            except engine.CaseTimeout:
+                raise
+            except Exception as e:
+                dis.append({"clause": "Raises", "form": name, "detail": "%s raised %s: %s" % (name, type(e).__name__, str(e)[:60])})
     tc = "non_conformal" if any(tclass(M) == "non_conformal" for M in hist) else "conformal"
     neg = any(float(rat(M[0])) * float(rat(M[3])) - float(rat(M[1])) * float(rat(M[2])) < 0 for M in hist)
     for x in dis:
@@ -276,7 +316,7 @@ def check_case(case):
         x["transform_class"] = tc
         x["reflection"] = neg
         x["detail"] += "  [object %s, maps %s]" % (obj, [[float(rat(v)) for v in M] for M in hist])
-    return {"dis": dis, "nontrivial": len(hist) >= 1, "class": "%s:%s" % (obj[0], tc), "checked": ["DefiningPoint", "BezierPoint", "ArcPoint", "Centre", "Endpoints"]}
+    return {"dis": dis, "nontrivial": len(hist) >= 1, "class": "%s:%s" % (obj[0], tc), "checked": ["DefiningPoint", "BezierPoint", "ArcPoint", "Centre", "Endpoints", "DegenerateArc"]}
 
 
 UNITS = [(1, 1000), (12345, 1), (37, 100), (100000, 1), (1, 64)]
